@@ -66,6 +66,15 @@ class NT(typing.NamedTuple):
     a: int
     b: str = "x"
 
+class NTba(typing.NamedTuple):
+    b: str
+    a: int = 0
+
+class NTbaSub(NTba):
+    # an INHERITED named tuple: no annotations of its own, only a method
+    def label(self):
+        return self.b
+
 class TD(typing.TypedDict):
     a: int
     b: str
@@ -105,6 +114,36 @@ class PC:
         return hash((self.a, self.b))
     def __repr__(self):
         return f"PC(a={self.a!r}, b={self.b!r})"
+
+class PCbase:
+    a: int
+
+class PCinh(PCbase):
+    # field `a` is annotated by the base class, `b` by this one
+    b: str
+    __tlmc_fields__ = ("a", "b")
+    def __init__(self, a: int, b: str = "x"):
+        self.a = a
+        self.b = b
+    def __eq__(self, o):
+        return type(o) is type(self) and (self.a, self.b) == (o.a, o.b)
+    def __hash__(self):
+        return hash((self.a, self.b))
+    def __repr__(self):
+        return f"PCinh(a={self.a!r}, b={self.b!r})"
+
+class PCinit:
+    # no class-level hints: the fields are known from the (string) annotations of __init__ only
+    __tlmc_fields__ = ("a", "b")
+    def __init__(self, a: "int", b: "str" = "x"):
+        self.a = a
+        self.b = b
+    def __eq__(self, o):
+        return type(o) is type(self) and (self.a, self.b) == (o.a, o.b)
+    def __hash__(self):
+        return hash((self.a, self.b))
+    def __repr__(self):
+        return f"PCinit(a={self.a!r}, b={self.b!r})"
 
 class PCcv:
     """annotated plain class with a ClassVar next to its fields"""
